@@ -118,23 +118,27 @@ def _check_append_mismatch(case):
 NAMESETS = ((), ("a",), ("a", "b"), ("b", "a"), ("b", "c"), ("a", "p"), ("p",), ("e", "a"), ("c", "p", "a"), ("q", "e"))
 
 
-def _mk_tg(names, tag, hi):
+def _mk_tg(names, tag, hi, narrow=False):
+    """narrow: the tiers' own spans end half a second before the textgrid's (legal: addTier only ever widens the
+    textgrid, and files may carry tier spans narrower than the file span)"""
     tg = Textgrid(0.0, hi)
+    thi = hi - 0.5 if narrow else hi
     for nm in names:
         if nm in ("p", "q"):
-            tg.addTier(PT(nm, [(1.0, tag + nm)] if nm == "p" else [], 0.0, hi))
+            tg.addTier(PT(nm, [(1.0, tag + nm)] if nm == "p" else [], 0.0, thi))
         elif nm == "e":
-            tg.addTier(IT("e", [], 0.0, hi))
+            tg.addTier(IT("e", [], 0.0, thi))
         else:
-            tg.addTier(IT(nm, [(0.0, 1.0, tag + nm), (1.0, hi, tag + nm + "2")], 0.0, hi))
+            tg.addTier(IT(nm, [(0.0, 1.0, tag + nm), (1.0, thi, tag + nm + "2")], 0.0, thi))
     return tg
 
 
 def _check_append_tg(case):
-    NA, NB, flag, ha, hb = case
-    A, B = _mk_tg(NA, "A", ha), _mk_tg(NB, "B", hb)
+    NA, NB, flag, ha, hb, narrowA, narrowB = case
+    A, B = _mk_tg(NA, "A", ha, narrowA), _mk_tg(NB, "B", hb, narrowB)
     st, R, out = call(A.appendTextgrid, B, flag)
-    tag = f"appendTextgrid names {NA} + {NB} onlyMatchingNames={flag} maxA={ha} maxB={hb}"
+    tag = (f"appendTextgrid names {NA} + {NB} onlyMatchingNames={flag} maxA={ha} maxB={hb} "
+           f"tier spans narrower than the textgrid: A={narrowA} B={narrowB}")
     if st == "exc":
         return 1, "X", None, [Viol("appendTextgrid-raised:" + type(R).__name__, f"{tag} raised {R!r}")]
     expn = tuple(n for n in NA if n in NB) if flag else tuple(NA) + tuple(n for n in NB if n not in NA)
@@ -159,7 +163,7 @@ def _check_append_tg(case):
                 msg = f"tier {nm}: ill-formed ({w})"
                 break
     viols = [Viol("appendTextgrid-result", msg + "  [" + tag + "]")] if msg else []
-    return 1, "%d tiers" % len(expn), (NA, NB, flag), viols
+    return 1, "%d tiers" % len(expn), (NA, NB, flag, narrowA, narrowB), viols
 
 
 def _check_tg_shift(case):
@@ -292,12 +296,13 @@ def parts(tier):
             for NB in NAMESETS:
                 for flag in (True, False):
                     for ha, hb in ((2.0, 3.0), (3.0, 2.0)):
-                        yield (NA, NB, flag, ha, hb)
+                        for narrowA, narrowB in ((False, False), (True, False), (False, True), (True, True)):
+                            yield (NA, NB, flag, ha, hb, narrowA, narrowB)
 
     ps.append(InputPart(
         "append-textgrid", gen_atg, _check_append_tg,
         rule="all ordered pairs of tier-name lists from %d lists (equal, overlapping, disjoint, reordered, with point and "
-             "empty tiers) x onlyMatchingNames x 2 duration pairs" % len(NAMESETS), bounds={"name_lists": len(NAMESETS)}))
+             "empty tiers) x onlyMatchingNames x 2 duration pairs x tier spans equal to / narrower than the textgrid span (A, B)" % len(NAMESETS), bounds={"name_lists": len(NAMESETS)}))
 
     tsets = D.interval_sets(grid, 2)
 
